@@ -12,7 +12,7 @@
     those a Reset discarded (a Reset forgets the requests accepted but not yet answered; they
     are never answered — their table entries are gone and late results are dropped — and the
     statements below hold for everything accepted before and after the Reset). *)
-From Akita Require Import Lib.Base C21.Model C21.Proofs C21.Proofs2.
+From Akita Require Import Lib.Base C21.Model C21.Proofs C21.Proofs2 C21.Proofs3 C21.Proofs4.
 Local Open Scope N_scope.
 
 Definition top_traffic (r : rob) (obs : list tick_obs) : list trsp := flat_map to_top obs ++ r_top_out r.
@@ -183,3 +183,126 @@ Example c21_nonvacuous_reset :
       map (fun a => q_id (fst a)) (g_acc r) = [23; 24; 25] /\ length (r_trans r) = 2%nat
   end.
 Proof. vm_compute. repeat split. Qed.
+
+(** ---------------------------------------------------------------------------------------
+    The control verbs.  [tick] services the Control port first (processControlMsg) and runs the
+    pipeline only while Enabled (0) or Draining (3); Paused is 2.  [data_view] is the whole data
+    path (table, the four port buffers, the ghosts), [accept_view] the part acceptance touches
+    (accepted list, Top incoming buffer, shadow requests sent, Bottom outgoing buffer). *)
+
+(** Pause stops acceptance and release exactly as coded: a Tick that ends in Paused — the Pause
+    was handled in this very Tick, or the component was already Paused and no Enable/Reset was
+    handled — leaves the table and all four data-port buffers untouched: nothing is accepted,
+    recorded or released.  (Holds for every state, reachable or not.) *)
+Theorem c21_pause_freezes : forall r p r',
+  tick r = (p, r') -> r_cstate r' = 2 -> data_view r' = data_view r.
+Proof. exact pause_freezes. Qed.
+Print Assumptions c21_pause_freezes.
+
+(** While not Enabled (Paused, or Draining after a Drain was accepted) no request is accepted
+    and no shadow request is sent; while Draining the release side keeps running. *)
+Theorem c21_no_acceptance_unless_enabled : forall r p r',
+  tick r = (p, r') -> r_cstate r' <> 0 -> accept_view r' = accept_view r.
+Proof. exact draining_no_accept. Qed.
+Print Assumptions c21_no_acceptance_unless_enabled.
+
+(** Drain: the command is taken silently (state Draining, requester and ID remembered, no
+    response); in every reachable state a Tick emits at most one control response, and a Drain
+    acknowledgement (Command = Drain) is emitted only from Draining with an EMPTY transaction
+    table — then every accepted request that was not reset away has been answered —, goes to
+    the remembered requester with RspTo = the remembered ID, reports success and leaves the
+    component Paused. *)
+Theorem c21_drain_ack_only_when_empty : forall size width tc bc cc script r obs,
+  env_run (rob_init size width tc bc cc) script = (r, obs) ->
+  (forall id src rest, r_cstate r <> 3 -> r_ctl_in r = CReq id src 1 :: rest ->
+     exists rc, process_control r = (true, rc) /\ r_cstate rc = 3 /\ r_cmd_id rc = id /\ r_cmd_src rc = src /\
+                r_ctl_out rc = r_ctl_out r /\ r_ctl_in rc = rest /\ data_view rc = data_view r) /\
+  (forall p r', tick r = (p, r') ->
+     r_ctl_out r' = r_ctl_out r \/
+     exists c, r_ctl_out r' = r_ctl_out r ++ [c] /\
+       (cr_cmd c = 1 -> r_cstate r = 3 /\ r_trans r = [] /\ r_trans r' = [] /\ r_cstate r' = 2 /\ cr_ok c = true /\
+                        cr_rspto c = r_cmd_id r /\ cr_dst c = r_cmd_src r /\
+                        length (g_rel r) = length (g_acc r))).
+Proof.
+  intros size width tc bc cc script r obs E. destruct (run_good _ _ _ _ _ _ _ _ E) as [I _]. split.
+  - intros id src rest. apply drain_accept.
+  - intros p r'. apply tick_replies. exact I.
+Qed.
+Print Assumptions c21_drain_ack_only_when_empty.
+
+(** Reset discards exactly what the code discards: in a reachable state whose Control head is a
+    Reset that can be answered, processControlMsg empties the table and the Top and Bottom
+    INCOMING buffers, leaves the outgoing buffers and everything already released alone, lands
+    in Enabled, and the accepted requests that are forgotten are exactly the entries of the
+    table (same requester, ID, shadow id and kind, in order). *)
+Theorem c21_reset_discards_exactly : forall size width tc bc cc script r obs,
+  env_run (rob_init size width tc bc cc) script = (r, obs) -> is_reset r ->
+  exists rc, process_control r = (true, rc) /\
+    r_trans rc = [] /\ r_top_in rc = [] /\ r_bot_in rc = [] /\ r_cstate rc = 0 /\
+    r_top_out rc = r_top_out r /\ r_bot_out rc = r_bot_out r /\ g_rel rc = g_rel r /\
+    r_next_id rc = r_next_id r + 1 /\
+    g_acc r = g_acc rc ++ skipn (length (g_rel r)) (g_acc r) /\
+    length (g_acc rc) = length (g_rel r) /\
+    map akey (skipn (length (g_rel r)) (g_acc r)) = map tkey (r_trans r).
+Proof.
+  intros size width tc bc cc script r obs E. destruct (run_good _ _ _ _ _ _ _ _ E) as [I _]. apply reset_discards. exact I.
+Qed.
+Print Assumptions c21_reset_discards_exactly.
+
+(** The epoch opened by a Reset.  A Reset is executed by the Tick of instant [i] of ANY history
+    (state [delivered r i] when that Tick starts); [r2] is the state after ANY continuation
+    (more resets included).  Then the responses [more] released after the Reset (a) never
+    belong to a discarded transaction (their shadow ids differ from every discarded one),
+    (b) each answers its own transaction — original requester, ID, kind, the data of the last
+    DataReady the lower unit returned for that transaction's shadow id —, and (c) are, in
+    order, the answers to the requests accepted after the Reset (shadow ids generated after
+    it) that no later Reset discarded, followed by the requests still in the table. *)
+Theorem c21_reset_epoch : forall size width tc bc cc pre r obs0 i r' ob script r2 obs,
+  env_run (rob_init size width tc bc cc) pre = (r, obs0) ->
+  env_step r i = (r', ob) -> is_reset (delivered r i) ->
+  env_run r' script = (r2, obs) ->
+  let r0 := delivered r i in
+  exists more,
+    g_rel r2 = g_rel r0 ++ more /\
+    (forall x t, In x more -> In t (r_trans r0) -> t_bot_id (snd x) <> t_bot_id t) /\
+    Forall rsp_answers more /\ Forall trans_ok (map snd more) /\
+    map akey (skipn (length (g_rel r0)) (g_acc r2)) = map tkey (map snd more ++ r_trans r2) /\
+    (forall a, In a (skipn (length (g_rel r0)) (g_acc r2)) -> r_next_id r0 < snd a).
+Proof. exact reset_epoch. Qed.
+Print Assumptions c21_reset_epoch.
+
+(** Non-vacuity of the control theorems: A and B accepted; Drain taken; B completes first and is
+    parked, then A; both are released in order in the next tick; only in the tick after that the Drain acknowledgement (to requester 1,
+    RspTo 7100) appears and the component is Paused; a request arriving while Paused stays in the
+    Top buffer for two ticks (frozen); Enable; it is accepted. *)
+Definition control_script : list instant :=
+  [mk_instant false [QRead 30 0 0 4 0 12; QRead 31 1 64 4 0 12] [] [] 4 4 2;
+   mk_instant false [] [] [CReq 7100 1 1] 4 4 2;
+   mk_instant false [QRead 32 0 128 4 0 12] [BData 1 [2]] [] 4 4 2;
+   mk_instant false [] [BData 0 [1]] [] 4 4 2;
+   mk_instant false [] [] [] 4 4 2;
+   mk_instant false [] [] [] 4 4 2;
+   mk_instant false [] [] [] 4 4 2;
+   mk_instant false [] [] [CReq 7101 1 2] 4 4 2;
+   mk_instant false [] [] [] 4 4 2].
+
+Example c21_nonvacuous_control :
+  match env_run (rob_init 4 2 4 4 2) control_script with
+  | (r, obs) =>
+      map to_cstate obs = [0; 3; 3; 3; 3; 2; 2; 0; 0] /\
+      map to_top obs = [[]; []; []; []; [TData 2 0 30 [1] 5; TData 3 1 31 [2] 5]; []; []; []; []] /\
+      map to_ctl obs = [[]; []; []; []; []; [mk_crsp 4 1 7100 1 true]; []; [mk_crsp 5 1 7101 2 true]; []] /\
+      map to_ntrans obs = [2; 2; 2; 2; 0; 0; 0; 1; 1] /\
+      map (fun a => q_id (fst a)) (g_acc r) = [30; 31; 32]
+  end.
+Proof. vm_compute. repeat split. Qed.
+
+(** ... and the hypotheses of c21_reset_epoch are met by the Reset of [reset_script]. *)
+Example c21_nonvacuous_reset_epoch :
+  let r := fst (env_run (rob_init 8 2 4 4 2) (firstn 3 reset_script)) in
+  let i := nth 3 reset_script (mk_instant false [] [] [] 0 0 0) in
+  is_reset (delivered r i) /\ length (r_trans (delivered r i)) = 3%nat.
+Proof.
+  split; [split; [vm_compute; discriminate|split; [vm_compute; reflexivity|]]|vm_compute; reflexivity].
+  exists 7000, 0, []. vm_compute. reflexivity.
+Qed.
